@@ -71,7 +71,14 @@ def build_contract(spec):
         if "members" in spec:
             members = [FUTURE_CLASSES[spec["cls"]](y, m) for (y, m) in spec["members"]]
             return C.FutureChain(contracts=members, month=spec.get("month", 0))
-        return C.FutureChain(FUTURE_CLASSES[spec["cls"]], spec["start"], spec["end"], month=spec.get("month", 0))
+        chain = C.FutureChain(FUTURE_CLASSES[spec["cls"]], spec["start"], spec["end"], month=spec.get("month", 0))
+        if spec.get("listed_order_seed") is not None:
+            # the same members handed over as an explicit list in an arbitrary order (the constructor sorts them)
+            import random
+            members = list(chain.contracts)
+            random.Random(spec["listed_order_seed"]).shuffle(members)
+            chain = C.FutureChain(contracts=members, month=spec.get("month", 0))
+        return chain
     if kind == "cash":
         return Cash(spec.get("name", "USD"))
     raise ValueError("unknown contract kind " + str(kind))
